@@ -13,7 +13,17 @@
  *     2  keywords of 0..2 bytes of the ASCII symbol alphabet                4  symbols that scan as numbers (-1 +1 .5 -0x10 -2r1 1:n is refused..)
  *                                                                           5  symbols with a leading colon       6  the empty symbol
  *     Obligation: refused by the printer, or the reader yields exactly one value, of the same type, interned from the same text.
- * JANET_NO_NANBOX configuration; janet_symbol is a recording stub (symbol cache: C01/C03 units). */
+ * JANET_NO_NANBOX configuration; janet_symbol is a recording stub (symbol cache: C01/C03 units).
+ *
+ * FINDING (classes 3-6 fail on the pinned tree; reproduced on /repo/_build/janet):
+ *   (each s ["nil" "true" "false" "-1" "+1" ".5" "-0x10" "-2r1" "-1_" ":a" ""]
+ *     (def sym (symbol s)) (def txt (string/format "%j" sym)) (def back (protect (parse txt)))
+ *     (printf "%q -> %q -> %q %s" s txt back (if (and (back 0) (= (back 1) sym)) "ok" "MISMATCH")))
+ *   prints MISMATCH for every one of them: nil/true/false read back as the constants, -1 +1 .5 -0x10 -2r1 -1_ as numbers, :a as the
+ *   keyword :a, and the empty symbol prints nothing at all ((string/format "%j" [(symbol "") 1]) is "( 1)", a one-element tuple).
+ *   Symbols starting with a digit ("1e3"), containing whitespace or invalid UTF-8 are refused as they should be.
+ *   Repair (checked with these units: all six classes pass): contains_bad_chars must also refuse, for symbols, the empty text, a leading
+ *   colon, the words nil / true / false and any text janet_scan_numeric accepts. */
 #include "prelude.h"
 #define PS(c, msg) __CPROVER_assert(c, "C11 jdn symbol: " msg)
 int print_jdn_one__entry(struct pretty *S, Janet x, int depth);
@@ -31,7 +41,14 @@ const uint8_t *ps_symbol_stub(const uint8_t *str, int32_t len) {
   for (int i = 0; i < 8; i++) if (i < len) s_sym_text[i] = str[i];
   return (const uint8_t *) &s_interned.room[0];
 }
-void *ps_realloc_stub(void *q, size_t n) { __CPROVER_assert(0, "harness: parser stacks stay within the preallocated capacity"); __CPROVER_assume(0); return 0; }
+/* realloc: copying model (fresh block, old bytes copied, old block left alone): the number scanner grows its digit vector with it */
+void *ps_realloc_stub(void *q, size_t n) {
+  __CPROVER_assert(n <= 128, "harness bound: reallocation request fits the model block");
+  uint8_t *fresh = malloc(128);
+  size_t old = q ? __CPROVER_OBJECT_SIZE(q) : 0;
+  for (size_t i = 0; i < 128; i++) if (i < old && i < n) fresh[i] = ((uint8_t *) q)[i];
+  return fresh;
+}
 
 /* the documented symbol alphabet (parse.c comment table / unit parse.symchar) */
 static int sym_alpha(uint8_t c) {
@@ -104,10 +121,12 @@ static void rt(const uint8_t *text, int len, int preload) {
     for (int k = 0; k < 8; k++) if (k < s_n) { PS(s_out[k] < 0x80 && sym_alpha(s_out[k]), "harness: preloaded tokens consist of ASCII symbol characters"); buf[k] = s_out[k]; }
     p.bufcount = (size_t) s_n;
     st[2].consumer = tokenchar; st[2].flags = PFLAG_TOKEN; st[2].argn = 0; st[2].counter = 0; st[2].line = 1; st[2].column = 2; p.statecount = 3;
+    int consumed = tokenchar(&p, &st[2], ' ');      /* the delimiter ends the token (called directly: no consumer dispatch through a symbolic function pointer) */
+    PS(consumed == 0, "the delimiter itself is left to the enclosing form");
   } else {
     for (int k = 0; k < 8; k++) if (k < s_n) janet_parser_consume(&p, s_out[k]);
+    janet_parser_consume(&p, ' ');
   }
-  janet_parser_consume(&p, ' ');
   PS(p.error == 0, "the printed text is accepted by the reader (no parse error)");
   PS(p.statecount == 2 && p.argcount == 1, "the printed text reads back as exactly one value");
   PS(p.argcount == 1 && args[0].type == RT_TYPE, RT_TYPE_MSG);
